@@ -59,7 +59,14 @@ def _day_rows(m, row):
     return out
 
 
-@harness("season_reset", modules=[], props=["C08", "C01", "C16"], configs=_configs, goals=["second-season-started"])
+ALL_MODS = ["aquacrop.timestep.run_single_timestep", "aquacrop.timestep.reset_initial_conditions"] + [f"aquacrop.solution.{m}" for m in (
+    "check_groundwater_table root_development pre_irrigation drainage rainfall_partition irrigation infiltration capillary_rise germination "
+    "growth_stage canopy_cover soil_evaporation transpiration groundwater_inflow HIref_current_day biomass_accumulation harvest_index "
+    "root_zone_water water_stress aeration_stress temperature_stress growing_degree_day evap_layer_water_content cc_development "
+    "cc_required_time adjust_CCx update_CCx_CDC HIadj_pre_anthesis HIadj_post_anthesis HIadj_pollination").split()]
+
+
+@harness("season_reset", modules=ALL_MODS, props=["C08", "C01", "C16"], configs=_configs, goals=["second-season-started"])
 def h_reset(ctx, cfg):
     if cfg["crop"] == "Wheat":
         s1, e2, s2 = "1979/10/01", "1981/06/30", "1980/10/01"
@@ -123,6 +130,14 @@ def h_reset(ctx, cfg):
     except (symx.Abort, TypeError, ValueError, ZeroDivisionError) as e:
         rows = []; suspected = True
         ctx.note("touched", f"{type(e).__name__}: {e}")
+        import sys, traceback
+        sys.stderr.write(f"[season_reset] symbolic state touched: {type(e).__name__}: {e} @ {[(f.filename.split("/")[-1], f.lineno) for f in traceback.extract_tb(e.__traceback__)[-4:]]}\n")
+    if ctx.symbolic and not suspected:
+        leaks = [n for n in names if ctx.depends_on([n], rows, m0)]
+        ctx.note("leaks", leaks)
+        if leaks:
+            import sys
+            sys.stderr.write(f"[season_reset] state not reset and read on day 1: {leaks}\n")
     alts = [{n: 3.7 for n in names}, {n: 0.0 for n in names}]
     ctx.prove_independent("C08:the first day of a season does not depend on any state left by the previous season", names,
                           [r for r in rows], lambda alt: first_day({k: alt.get(f"prev_season.{k}", 0.0) for k in hav}), since=m0, alts=alts, suspected=suspected)
